@@ -30,6 +30,7 @@ var (
 	flagShrink  = flag.String("shrink", "", "replay file to minimise")
 	flagShrinkO = flag.String("shrinkout", "", "where to write the minimised replay file")
 	flagShrinkB = flag.Duration("shrinkbudget", 30*time.Second, "wall-clock budget for minimisation")
+	flagTapes   = flag.Int("tapes", 0, "with -replay: ignore the file's tape and run its program under this many seeded schedules, reporting every violation signature seen")
 )
 
 // WorkerOut is what one worker process reports.
@@ -192,6 +193,31 @@ func replayMain(t *testing.T) {
 	var rf ReplayFile
 	if err := json.Unmarshal(b, &rf); err != nil {
 		t.Fatal(err)
+	}
+	if *flagTapes > 0 {
+		seen := map[string]int{}
+		first := map[string]int{}
+		for i := 0; i < *flagTapes; i++ {
+			b2, _ := json.Marshal(rf.Program)
+			var p2 Program
+			json.Unmarshal(b2, &p2)
+			p2.Cfg.Policy = i % 3
+			p2.Seed = int64(i + 1)
+			r := RunOne(t, &p2, NewSearchTape(int64(i)*7919+1), false)
+			for _, v := range r.Viols {
+				if seen[v.Sig] == 0 {
+					first[v.Sig] = i
+					fmt.Printf("tape %d: VIOL %s %s\n     %s\n", i, v.Prop, v.Sig, v.Text)
+				}
+				seen[v.Sig]++
+			}
+			if r.Fatal != "" {
+				fmt.Println("FATAL", r.Fatal)
+			}
+			runtime.GC()
+		}
+		fmt.Printf("tapes=%d signatures=%v\n", *flagTapes, seen)
+		return
 	}
 	res := RunOne(t, rf.Program, NewReplayTape(rf.Tape), true)
 	res.HistText = res.histText()
